@@ -1,5 +1,5 @@
 #!/bin/bash
-# usage: regress_prop.sh <lachk binary> <worktree dir> <PROP> [PROP...]
+# usage: [REFAC_FILTER=<regex on patch path, e.g. "/(abft|vec)/">] regress_prop.sh <lachk binary> <worktree dir> <PROP> [PROP...]
 # For the given properties: (1) unchanged tree must be silent, (2) every behaviour-preserving patch in
 # /verif/regress/refac must be silent, (3) every seeded change of the property in /verif/seeded must be caught.
 bin=$1; WT=$2; shift; shift; props="$@"
@@ -14,6 +14,7 @@ n=$(echo "$out" | grep -E "^ALARM ($pat) " | wc -l)
 echo "UNCHANGED alarms=$n"; echo "$out" | grep -E "^ALARM ($pat) " | cut -c1-300 | sed 's/^/    /'
 fa=0; tot=0
 for d in $(ls /verif/regress/refac*/*/*.diff | sort -V); do
+  if [ -n "$REFAC_FILTER" ] && ! echo "$d" | grep -Eq "$REFAC_FILTER"; then continue; fi
   reset; name=$(echo $d | sed "s,/verif/regress/,,")
   git -C $WT apply $d 2>/dev/null || { echo "REFAC $name does-not-apply"; continue; }
   out=$($bin -property all -repo $WT 2>&1)
